@@ -212,6 +212,35 @@ impl Property for C16 {
                 return Err(Violation::new("c16.recover", "wrong_message", "recovered message differs from the shared one"));
             }
             ctx.stats.probe("recovered");
+            // genuine shares at CHOSEN points (bit 128 set; the pair x / x + 2^128), computed from t of the
+            // delivered shares with big integers: "any t shares with distinct points" includes these
+            if t >= 2 && t <= 40 && ctx.ch.chance(1, 3) {
+                let mut seen: BTreeSet<BigUint> = BTreeSet::new();
+                let base: Vec<layout::PShare> = own.iter().filter_map(|s| layout::parse_share(&s.to_bytes())).filter(|p| seen.insert(p.x.clone())).take(t as usize).collect();
+                if base.len() == t as usize {
+                    let small = BigUint::from(1 + ctx.ch.draw(12_000));
+                    let hi = (BigUint::from(1u8) << 128) + &small;
+                    let mk = |x: &BigUint| Share::from_bytes(&layout::encode_share(&layout::genuine_share_at(&base, x)));
+                    let rest = |n: usize| -> Vec<Share> { base[n..].iter().filter_map(|p| Share::from_bytes(&layout::encode_share(p))).collect() };
+                    for (what, extra, skip) in [("one share at a point >= 2^128", vec![mk(&hi)], 1usize), ("shares at x and x + 2^128", vec![mk(&small), mk(&hi)], 2)] {
+                        let mut coll = rest(skip);
+                        for e in extra {
+                            coll.push(e.ok_or_else(|| Violation::new("c16.decode", "decode", "a genuine share at a chosen point was rejected by from_bytes"))?);
+                        }
+                        let xs: BTreeSet<BigUint> = coll.iter().filter_map(|s| layout::parse_share(&s.to_bytes())).map(|p| p.x).collect();
+                        if xs.len() < t as usize {
+                            continue;
+                        }
+                        let perm = ctx.ch.permutation(coll.len());
+                        let coll: Vec<Share> = perm.iter().map(|&i| coll[i].clone()).collect();
+                        match recover(&coll) {
+                            Ok(c) if c.get_message() == m => ctx.stats.probe("recovered_with_chosen_points"),
+                            Ok(_) => return Err(Violation::new("c16.recover", "chosen_point_wrong_message", format!("t={} genuine shares with distinct points ({}) recovered another message", t, what))),
+                            Err(e) => return Err(Violation::new("c16.recover", "chosen_point", format!("t={} genuine shares with distinct points ({}) did not recover: {}", t, what, e))),
+                        }
+                    }
+                }
+            }
             // re-share the recovered sharing; mix new and original shares at drawn positions
             let mut mixed: Vec<Share> = Vec::new();
             let n_new = 1 + ctx.ch.index(t as usize);
